@@ -348,3 +348,49 @@ Proof.
     all: try (destruct (a3 =? 0)); try (destruct r_cs); try (timeout 20 reflexivity).
     all: try (erewrite bridge_sendRejectTransactionNotOpen_l by reflexivity; timeout 20 reflexivity).
 Qed.
+
+(** ** the control messages of [expect_dispatch] are the frames of Hsms/Responder.v
+    (model-to-model: the header the Header.v constructors build = [header_bytes] of the frame the
+    responder model sends), for a frame [f] of the responder model read as the header [hdr_of_frame f] *)
+From GoSecs Require Hsms.Responder.
+
+Definition sys_bytes_of (sys : Z) : Z * Z * Z * Z :=
+  (sys / 16777216, (sys / 65536) mod 256, (sys / 256) mod 256, sys mod 256).
+
+Definition hdr_of_frame (f : Responder.frame) : hdr :=
+  let '(s3, s2, s1, s0) := sys_bytes_of (Responder.f_sys f) in
+  mkHdr (Responder.f_sid f / 256) (Responder.f_sid f mod 256) (Responder.f_b2 f) (Responder.f_b3 f)
+        (Responder.f_pt f) (Responder.f_st f) s3 s2 s1 s0.
+
+Lemma hdr_of_frame_bytes f : hdr_bytes (hdr_of_frame f) = Responder.header_bytes f.
+Proof. reflexivity. Qed.
+
+Lemma session_id_of_frame f : 0 <= Responder.f_sid f < 65536 -> session_id (hdr_of_frame f) = Responder.f_sid f.
+Proof. intros H. unfold session_id, hdr_of_frame, de16. cbn [sys_bytes_of h0 h1]. Z.div_mod_to_equations; lia. Qed.
+
+Lemma reject_raw_frame sid pt st sys reason : 0 <= sid < 65536 ->
+  hdr_bytes (c_hdr (new_reject_req_raw sid pt st (sys_bytes_of sys) reason)) =
+  Responder.header_bytes (Responder.reject_raw sid pt st sys reason).
+Proof.
+  intros H. unfold new_reject_req_raw, Responder.reject_raw, Responder.ctrl, Responder.header_bytes, sys_bytes_of,
+    REJECT_PTYPE_NOT_SUPPORTED, Responder.reason_ptype, ST_REJECT_REQ, Responder.st_reject_req.
+  cbn [c_hdr put_sys put_st put_b3 put_b2 put_sid hdr_zero hdr_bytes h0 h1 h2 h3 h4 h5 h6 h7 h8 h9
+       Responder.f_sid Responder.f_b2 Responder.f_b3 Responder.f_pt Responder.f_st Responder.f_sys].
+  unfold hdr_bytes. cbn [h0 h1 h2 h3 h4 h5 h6 h7 h8 h9].
+  replace ((sid / 256) mod 256) with (sid / 256) by (Z.div_mod_to_equations; lia). reflexivity.
+Qed.
+
+Lemma select_rsp_frame f status : 0 <= Responder.f_sid f < 65536 ->
+  hdr_bytes (c_hdr (rsp_of (mkC (hdr_of_frame f) false) ST_SELECT_RSP status)) =
+  Responder.header_bytes (Responder.select_rsp f status).
+Proof. intros H. reflexivity. Qed.
+
+Lemma deselect_rsp_frame f status : 0 <= Responder.f_sid f < 65536 ->
+  hdr_bytes (c_hdr (rsp_of (mkC (hdr_of_frame f) false) ST_DESELECT_RSP status)) =
+  Responder.header_bytes (Responder.deselect_rsp f status).
+Proof. intros H. reflexivity. Qed.
+
+Lemma linktest_rsp_frame f :
+  hdr_bytes (put_sys (put_st (put_b01 hdr_zero 255 255) ST_LINKTEST_RSP) (system_bytes (hdr_of_frame f))) =
+  Responder.header_bytes (Responder.linktest_rsp f).
+Proof. reflexivity. Qed.
